@@ -15,6 +15,13 @@ THEOREMS = [
     "C05.index_safe",
     "C05.depth_le_length",
     "C05.parseQuery_total",
+    "C05.validateQuery_total",
+    "C05.stripPrefix_no_panic",
+    "C05.notPrefix_no_panic",
+    "C05.notPrefixFixedOffset_counterexample",
+    "C05.numAttr_no_panic",
+    "C05.grlQueryNums_no_panic",
+    "C05.numAttrUnwrap_counterexample",
     # (b) slicing kernels, (c) termination / recursion depth
     "C05.evalExpr_no_panic",
     "C05.evalExpr_total",
@@ -54,6 +61,10 @@ THEOREMS = [
     "C05.parseAccCondition_no_panic",
     "C05.extractModule_no_panic",
     "C05.attrsSection_no_panic",
+    # the SetWorkflowData("key=value") branch: the text that is unmasked twice (forged placeholder indices)
+    "C05.wfDataSplit_no_panic",
+    "C05.wfData_no_panic",
+    "C05.wfDataDirect_counterexample",
     # evaluate_expression including the branches of apply_operator
     "C05.evalValue_no_panic",
     "C05.evalValue_total",
@@ -74,9 +85,23 @@ RULE = ("PROOF PART: cases = corpus + every string of length <= 3 over {e-acute,
         "on parse_value (through a rule) + every `a op b` over 22 arithmetic corner operands (zero divisors, i64 extremes, floats, "
         "numeric/non-numeric strings, integer/float/string/boolean facts) x {+ - * / %} on evaluate_expression + every string of "
         "length <= 4 over {U+0001, U+0002, 0, \", a, newline} and over {/, *, \", newline, a, '} through the text layer "
-        "(strip_comments -> mask_string_literals -> clean_text -> unmask, observed in parse_rule's error message) + N generated "
-        "strings, each for one of 24 modelled entries (ExpressionParser::parse, "
-        "QueryParser::parse, evaluate_expression with fixed facts, DisjunctionParser::parse/contains_or, GRLQueryParser::parse/parse_queries, "
+        "(strip_comments -> mask_string_literals -> clean_text -> unmask, observed in parse_rule's error message) + STRUCTURED MUTATIONS "
+        "of every valid input of every entry (30 entries incl. the whole-rule entries parse_rules / parse_with_modules / parse_rule / a when "
+        "clause, which have no prediction: oracle only): (i) every ASCII blank replaced by a multi-byte white space character (NBSP, NEL, "
+        "EM SPACE, IDEOGRAPHIC SPACE each; LINE/PARAGRAPH SEPARATOR, OGHAM, THIN, NARROW NBSP, MEDIUM MATHEMATICAL SPACE, VT, FF rotating) "
+        "and by a look-alike that is NOT white space (ZERO WIDTH SPACE, BOM, WORD JOINER, fullwidth parentheses/quotes/operators), every "
+        "blank at once, and the character in front of / behind the input; (ii) every digit run (max-depth, max-solutions, salience, window "
+        "durations, ScheduleRule delay, placeholder indices, literals in conditions/actions/arrays) replaced by 20 boundary numbers "
+        "(i32/u32/i64/u64 = usize MAX and MAX+1, 2^64+1, 20 and 30 nines, 2^128, leading zeros before 7 / usize::MAX / usize::MAX+1) and by "
+        "runs of 20/30/64/400 nines or zeros (<= 39 digits where the text ends up in a when leaf: F-C05h); (iii) 16 placeholder-looking "
+        "forms (MASK_START <index> MASK_END with indices inside / at / beyond the table, beyond usize, signed, zero-padded, empty, "
+        "unterminated, nested) INSIDE every string literal of every statement form (conditions, assignments, Log, function and method "
+        "arguments, SetWorkflowData / set_workflow_data key=value literals incl. right after the `=`, rule names, attribute strings, "
+        "query goals, stream names) + N generated "
+        "strings, each for one of 27 modelled entries or 3 whole-rule entries (one in five: a valid input with random (i)/(ii)/(iii) "
+        "mutations, sometimes spliced; every token alphabet yields a Unicode white space / look-alike one time in ten) (ExpressionParser::parse, "
+        "QueryParser::parse and its twin QueryParser::validate, the SetWorkflowData / set_workflow_data branch through a rule (WF/WG: key "
+        "and value after the double unmask), GRLQueryParser::parse now with max_depth and max_solutions in the observation, evaluate_expression with fixed facts, DisjunctionParser::parse/contains_or, GRLQueryParser::parse/parse_queries, "
         "parse_aggregate_query, NestedQueryParser::has_nested/parse, parse_value through a condition value and through an "
         "assignment (via mask/unmask), all seven public nom parsers of stream_syntax.rs, the text layer (PU), the rule name through "
         "mask+unmask (PN), parse_accumulate_condition through a rule (AC), extract_module_from_context through parse_with_modules (MC), "
@@ -88,7 +113,8 @@ RULE = ("PROOF PART: cases = corpus + every string of length <= 3 over {e-acute,
         "delimiter/operator/quote (byte offsets != char indices where the parsers cut) or a run >= 32 of one char; distinct "
         "= distinct case text. SEARCH PART (fuzzing-like, labelled `search_*` in coverage; supports, never replaces, the "
         "theorems): ROBUST_N strings (raw bytes->lossy UTF-8, GRL/expression token soups, valid rules/queries mutated by "
-        "splice/truncate/duplicate/multi-byte insertion, prefix chains !!!.. ((((.. ----.. up to 4 KiB, balanced nesting "
+        "splice/truncate/duplicate/multi-byte insertion, one in five a valid rule/query/goal/stream pattern with the structured mutations "
+        "(i)-(iii) above, prefix chains !!!.. ((((.. ----.. up to 4 KiB, balanced nesting "
         "<= 32) are each run on ALL SEVEN entry points in a child process with the default 8 MiB main-thread stack and a "
         "per-input watchdog (quick 30 s, thorough 120 s); panic payloads, death by signal and hangs are reported.")
 TRUSTED = [
@@ -96,7 +122,9 @@ TRUSTED = [
     "hand-written model RreModel/C05/Model.lean (kernels after fix-C05.patch) tied to the code by the correspondence check only",
     "a Rust &str is a List Char with widths Char.utf8Size; is_char_boundary(i) <=> i is the byte length of a prefix (std's str invariant)",
     "std's char classification (is_whitespace/is_alphabetic/is_numeric) is an input of each case, computed by the harness",
-    "str::parse::<i64>/<f64> acceptance is modelled by parseI64/isF64 (grammar only); regex `query\\s+\"[^\"]+\"\\s*\\{` by a scanner",
+    "str::parse::<i64>/<f64> acceptance is modelled by parseI64/isF64 (grammar only); regex `query\\s+\"[^\"]+\"\\s*\\{` and "
+    "`max-depth:\\s*(\\d+)` / `max-solutions:\\s*(\\d+)` by scanners (leftmost match; rexile's \\s = blank, tab, CR, LF only - not VT/FF/Unicode "
+    "white space - and \\d = ASCII digits, as observed)",
     "nom: the seven primitive combinators used by stream_syntax.rs (multispace0/1, digit1, alpha1, take_while1, tag, char) are a parameter "
     "of the model with the contract Nom.Sound (output ++ rest = input; the ...1 parsers, char and tag of a non-empty pattern consume); "
     "opt/delimited/tuples/alt are written out as sequencing glue; the driver predicts with the reference instance nomRef (proved to meet the contract)",
@@ -120,7 +148,10 @@ LEVEL_TEXT = ("Lean 4 theorems (kernel-checked, for every string and every Unico
               "kernels of the parsers never panic and terminate with recursion depth <= chars + 1: complete model of ExpressionParser "
               "(parse_total, index_safe, depth_le_length) and byte-level models of evaluate_expression/find_operator, parse_value/"
               "parse_array_literal, parse_when_clause's skeleton, split_top_level_or, extract_goal/find_goal_end/find_matching_brace, "
-              "parse_aggregate_query, has_nested, extract_directive, the assignment split; strip_comments / mask_string_literals / unmask "
+              "parse_aggregate_query, has_nested, extract_directive, the assignment split; QueryParser's NOT prefix at byte level "
+              "(strip_prefix never panics for any pattern; a fixed-offset skip after a char-class test is refuted), the numeric attributes "
+              "max-depth / max-solutions (any digit run; the unwrapping variant is refuted), the SetWorkflowData key=value branch where text is "
+              "unmasked twice (forged placeholder indices; direct table indexing is refuted); strip_comments / mask_string_literals / unmask "
               "(total for every text incl. raw U+0001/U+0002, overflowing or out-of-range placeholder indices), the accumulate kernels, "
               "extract_module_from_context, parse_rule_attributes' slices, apply_operator's branches, and the nom stream grammar over abstract "
               "primitive combinators (no panic for any primitives; proper-suffix progress under their contract); from the generic lemmas "
@@ -154,6 +185,15 @@ def classify(case, impl, model, oracle, kind):
     if kind == "oracle":
         if impl.startswith("panic:"):
             return _panic_sig(e, impl[6:])
+        if impl == "hang":
+            # a text that reaches the GRL parser with a `when` leaf of more than 100 bytes: F-C05h (same root cause, same signature
+            # as in the search part); the generator caps such leaves, this is for a spliced `when` that escapes the cap
+            t = case.split(" ")
+            s = _unhex(t[1]) if len(t) > 1 else ""
+            if e == "W":
+                s = "when " + s
+            if e in ("R", "M", "W", "PU", "AT", "PN", "AC", "MC", "RV", "RA", "WF", "WG") and _long_when_leaf(s):
+                return KNOWN_HANG_SIG
         return "oracle:%s:%s" % (e, oracle.replace("fail ", ""))
     return "diff:%s" % e
 
